@@ -75,6 +75,24 @@ def generate(seed, tier):
     return cases
 
 
+def folded_by_design(prog, v):
+    """loop-constant folding (a documented mechanism of ConstantsTransformer): a variable that is never assigned in the body and whose
+    only initial assignment is an unconditional deterministic polynomial over other loop constants (kr = 2*kq with kq = 1 {1/2} 2) is
+    replaced by that polynomial everywhere.  Its value stays a fixed function of surviving variables whose joint law IS compared, so
+    its disappearance loses nothing; a constant initialised by a choice or a draw must survive."""
+    from ..lang.ast import rhs_vars
+    body_assigned = {a[1] for a in K._all_assigns(prog.body)}
+    if v in body_assigned:
+        return False
+    defs = [a for a in K._all_assigns(prog.init) if a[1] == v]
+    if len(defs) != 1 or defs[0][2][0] != "poly" or len(defs[0]) > 3:
+        return False
+    top = [st for st in prog.init if st[0] == "assign" and st[1] == v]
+    if len(top) != 1:
+        return False   # assigned inside an if-statement of the init block
+    return not (rhs_vars(defs[0][2]) & body_assigned)
+
+
 def worker_init(tier):
     P.load()
 
@@ -180,7 +198,7 @@ def run_case(case, tier):
         bad_drop = None
         for v in dropped:
             vals = {stt[seng.index[v]] for d in sd for stt in d}
-            if len(vals) != 1:
+            if len(vals) != 1 and not folded_by_design(prog, v):
                 bad_drop = v
         if bad_drop is not None:
             res["violations"].append({"kind": "variable-dropped", "stage": st.name, "key": None,
